@@ -350,3 +350,47 @@ func TextFor(r *coqfmt.Rng, t reflect.Type) string {
 	}
 	return textScalar(r, t)
 }
+
+// TextForValid draws a text that parse.String accepts for type t (scalars in
+// the range of every width, well-formed lists and maps).
+func TextForValid(r *coqfmt.Rng, t reflect.Type) string {
+	sc := func(t reflect.Type) string {
+		if t == reflect.TypeOf(time.Duration(0)) {
+			return []string{"3s", "1h2m", "250ms", "0s", "-5m", "1.5h"}[r.Intn(6)]
+		}
+		switch t.Kind() {
+		case reflect.Bool:
+			return []string{"true", "false", "1", "0", "T"}[r.Intn(5)]
+		case reflect.Int, reflect.Int8, reflect.Int16, reflect.Int32, reflect.Int64:
+			return strconv.Itoa(r.Intn(200) - 100)
+		case reflect.Uint, reflect.Uint8, reflect.Uint16, reflect.Uint32, reflect.Uint64, reflect.Uintptr:
+			return strconv.Itoa(r.Intn(200))
+		}
+		return textScalar(r, t)
+	}
+	switch t.Kind() {
+	case reflect.Slice:
+		n := 1 + r.Intn(3)
+		parts := make([]string, n)
+		for i := range parts {
+			parts[i] = sc(t.Elem())
+		}
+		return strings.Join(parts, ",")
+	case reflect.Map:
+		n := 1 + r.Intn(3)
+		parts := make([]string, n)
+		for i := range parts {
+			k := fmt.Sprintf("k%d", i)
+			if t.Key().Kind() != reflect.String {
+				k = strconv.Itoa(i + 1)
+			}
+			if t.Elem().Kind() == reflect.Struct {
+				parts[i] = k
+			} else {
+				parts[i] = k + ":" + sc(t.Elem())
+			}
+		}
+		return strings.Join(parts, ",")
+	}
+	return sc(t)
+}
